@@ -2,6 +2,7 @@ package runner
 
 import (
 	"errors"
+	"os"
 
 	"github.com/gontainer/gontainer/internal/pkg/input"
 )
@@ -21,6 +22,7 @@ type VfEnvT struct {
 	Writes    []string // contents handed to os.WriteFile, in order
 	WritePath []string
 	Log       []string // environment calls in order
+	Touched   []string // paths created, truncated, removed or renamed by anything but a successful WriteFile
 }
 
 var VfEnv VfEnvT
@@ -64,6 +66,41 @@ func vfStub_os_WriteFile(name string, data []byte, perm uint32) error {
 	}
 	VfEnv.Writes = append(VfEnv.Writes, string(data))
 	VfEnv.WritePath = append(VfEnv.WritePath, name)
+	return nil
+}
+
+// Other ways of touching the file system: logged, and counted as a change of
+// the named path.
+func vfStub_os_OpenFile(name string, flag int, perm os.FileMode) (*os.File, error) {
+	VfEnv.Log = append(VfEnv.Log, "open:"+name)
+	if VfEnv.WriteErr {
+		return nil, errors.New("open " + name + ": permission denied")
+	}
+	if flag&(os.O_CREATE|os.O_TRUNC|os.O_WRONLY|os.O_RDWR|os.O_APPEND) != 0 {
+		VfEnv.Touched = append(VfEnv.Touched, name)
+	}
+	return vfScratchFile(), nil
+}
+
+func vfStub_os_Create(name string) (*os.File, error) {
+	return vfStub_os_OpenFile(name, os.O_RDWR|os.O_CREATE|os.O_TRUNC, 0666)
+}
+
+func vfStub_os_Remove(name string) error {
+	VfEnv.Log = append(VfEnv.Log, "remove:"+name)
+	VfEnv.Touched = append(VfEnv.Touched, name)
+	return nil
+}
+
+func vfStub_os_Rename(from, to string) error {
+	VfEnv.Log = append(VfEnv.Log, "rename:"+from+":"+to)
+	VfEnv.Touched = append(VfEnv.Touched, from, to)
+	return nil
+}
+
+func vfStub_os_Truncate(name string, size int64) error {
+	VfEnv.Log = append(VfEnv.Log, "truncate:"+name)
+	VfEnv.Touched = append(VfEnv.Touched, name)
 	return nil
 }
 
